@@ -13,7 +13,7 @@ sys.path.insert(0, ROOT)
 from vlib import core, plan, checks  # noqa: E402
 
 
-def setup():
+def setup(selftest=False):
     need = ['clang++-14', 'cbmc', 'g++', 'gcc', 'python3']
     missing = [t for t in need if shutil.which(t) is None]
     if missing:
@@ -24,6 +24,15 @@ def setup():
     os.makedirs(os.path.join(ROOT, 'build'), exist_ok=True)
     os.makedirs(os.path.join(ROOT, 'evidence'), exist_ok=True)
     os.makedirs(os.path.join(ROOT, 'replays'), exist_ok=True)
+    if selftest:
+        # the vstd contract model against libstdc++ on pseudo-random operation sequences (order semantics of multimap
+        # emplace / emplace_hint / node handles, list splice / range erase, ...): see selftest/vstd_diff.cpp
+        env = dict(os.environ, STEPS='1500')
+        p = subprocess.run([os.path.join(ROOT, 'tools', 'vstd_selftest.sh'), '1', '2', '3'], capture_output=True, text=True, env=env)
+        print('\n'.join(l for l in p.stdout.splitlines() if l.startswith('seed')))
+        if p.returncode != 0:
+            print('TOOL-ERROR vstd self-test: the model disagrees with libstdc++\n' + (p.stdout + p.stderr)[-1500:])
+            return 2
     return 0
 
 
@@ -36,7 +45,7 @@ def main():
     ap.add_argument('--only', help='restrict to containers (comma separated), for debugging')
     a = ap.parse_args()
     if a.setup:
-        return setup()
+        return setup(selftest=True)
     if not a.prop:
         ap.error('property id required')
     setup()
